@@ -340,3 +340,18 @@ Example ex_mod_uint_zero : mod_do (NUint 5) (NUint 0) = Err.
 Proof. reflexivity. Qed.
 Example ex_mod_neg : mod_do (NInt (-7)) (NInt 2) = Ok (NInt (-1)).
 Proof. reflexivity. Qed.
+
+(* ---- n-ary arithmetic (NumericFunction folds NumericDo from the left) ---- *)
+From Coq Require Import List.
+Import ListNotations.
+Theorem add_fold_wraps : forall a l, in_i64 a = true ->
+  numeric_fold OpAdd (map NInt (a :: l)) = Ok (NInt (wrap64 (a + fold_right Z.add 0 l))).
+Proof. exact NumProofs.add_fold_wraps. Qed.
+Print Assumptions add_fold_wraps.
+
+Theorem fold_two : forall op a b, numeric_fold op [a; b] = numeric_do op a b.
+Proof. exact NumProofs.fold_two. Qed.
+Print Assumptions fold_two.
+
+Example ex_fold_three : numeric_fold OpAdd [NInt 9223372036854775807; NInt 0; NInt 5] = Ok (NInt (-9223372036854775804)).
+Proof. reflexivity. Qed.
